@@ -5,5 +5,6 @@ CONSTANTS
   L = 3
   Mode = "heaps"
   Repush = FALSE
+  HostCycles = "none"
 INVARIANT GenInv
 CHECK_DEADLOCK FALSE
